@@ -132,7 +132,38 @@ func (u *Unit) Run() {
 		}
 		u.addOblNamed(st, "structure", "structure/defers-first", "the body starts with `defer "+want+"`: a panic in it is recovered", fn.Pos(), BoolLit(ok))
 	}
+	if want := ct.Flags["defers-before"]; want != "" {
+		// structural obligation "A<B": in the entry block the defer of A is registered
+		// before the defer of B, so B runs first (a recover wrapper that reports on a
+		// channel must run before the deferred close of that channel)
+		a, b, _ := strings.Cut(want, "<")
+		ia, ib := -1, -1
+		for k, in := range fn.Blocks[0].Instrs {
+			d, isD := in.(*ssa.Defer)
+			if !isD {
+				continue
+			}
+			name := ""
+			if callee := d.Call.StaticCallee(); callee != nil {
+				name = funcKey(callee)
+			} else if bi, isB := d.Call.Value.(*ssa.Builtin); isB {
+				name = bi.Name()
+			}
+			if ia < 0 && strings.HasSuffix(name, a) {
+				ia = k
+			}
+			if ib < 0 && strings.HasSuffix(name, b) {
+				ib = k
+			}
+		}
+		u.addOblNamed(st, "structure", "structure/defers-before", "`defer "+a+"` is registered before `defer "+b+"` (so "+b+" runs first)", fn.Pos(), BoolLit(ia >= 0 && ib >= 0 && ia < ib))
+	}
 	exit, results := u.execBody(fr, st)
+	for k, n := range u.atApplied {
+		if n == 0 {
+			panic(unsupported{"contract expression: `at " + k + "` names variables that are in scope at none of the matching calls"})
+		}
+	}
 	for _, pl := range u.pendingLock {
 		if u.lockedInvs[pl.inv] {
 			u.obls = append(u.obls, pl.obl)
